@@ -62,23 +62,21 @@ Proof. exact verify_out_of_range. Qed.
 Theorem C19_ranges_are_the_signed_widths :
   slookup "ByteType" ranged_types = Some (- 2 ^ 7, 2 ^ 7 - 1) /\
   slookup "ShortType" ranged_types = Some (- 2 ^ 15, 2 ^ 15 - 1) /\
-  slookup "IntegerType" ranged_types = Some (- 2 ^ 31, 2 ^ 31 - 1).
+  slookup "IntegerType" ranged_types = Some (- 2 ^ 31, 2 ^ 31 - 1) /\
+  slookup "LongType" ranged_types = Some (- 2 ^ 63, 2 ^ 63 - 1).
 Proof. exact ranged_types_are_the_signed_widths. Qed.
 
-(* "out-of-range integers" read for every integral type: false for LongType today (open finding
-   verify:out-of-range-accepted:long) -- get_verifier has no branch for LongType *)
-Definition C19_out_of_range_full : Prop :=
-  forall a n z, In a [AByte; AShort; AInteger; ALong] ->
-    (z < - 2 ^ (match a with AByte => 7 | AShort => 15 | AInteger => 31 | _ => 63 end) \/
-     2 ^ (match a with AByte => 7 | AShort => 15 | AInteger => 31 | _ => 63 end) - 1 < z) ->
-    verify (TAtom a) n (PInt z) <> Ok tt.
-Theorem C19_out_of_range_partial : forall a n z, In a [AByte; AShort; AInteger] ->
-    (z < - 2 ^ (match a with AByte => 7 | AShort => 15 | AInteger => 31 | _ => 63 end) \/
-     2 ^ (match a with AByte => 7 | AShort => 15 | AInteger => 31 | _ => 63 end) - 1 < z) ->
-    verify (TAtom a) n (PInt z) <> Ok tt.
-Proof. exact out_of_range_partial. Qed.
-Theorem C19_out_of_range_refuted : ~ C19_out_of_range_full.
-Proof. exact out_of_range_refuted. Qed.
+(* "out-of-range integers" for every integral type (LongType included since the repair of the finding
+   verify:out-of-range-accepted:long): exactly the two's-complement range of the width is accepted *)
+Theorem C19_out_of_range : forall a n z, In a [AByte; AShort; AInteger; ALong] ->
+    (z < - 2 ^ int_bits a \/ 2 ^ int_bits a - 1 < z) -> verify (TAtom a) n (PInt z) = Err EValue.
+Proof. exact out_of_range_all. Qed.
+Theorem C19_in_range : forall a n z, In a [AByte; AShort; AInteger; ALong] ->
+    - 2 ^ int_bits a <= z <= 2 ^ int_bits a - 1 -> verify (TAtom a) n (PInt z) = Ok tt.
+Proof. exact in_range_all. Qed.
+Example long_regression : verify (TAtom ALong) true (PInt (2 ^ 63)) = Err EValue /\
+                          verify (TAtom ALong) true (PInt (2 ^ 63 - 1)) = Ok tt.
+Proof. split; reflexivity. Qed.
 
 Example damaged_example :
   damaged (TStruct [SField (lit "a") (TArray (TAtom AByte) false) true []]) true
@@ -132,27 +130,19 @@ Theorem C19_verify_accepts : forall t, inferable t -> forall v n, ivalue t v -> 
 Proof. exact verify_ivalue. Qed.
 
 (* ---- createDataFrame followed by collect returns rows equal to the input.
-   Full statement: for rows as above whose schema can be inferred, createDataFrame(rows).collect() is the
-   input, where the only change is that a timezone-aware datetime is re-expressed in the local zone (same
-   instant: [tz_local] keeps the UTC microseconds).  It is FALSE today (open finding
-   create:null-in-array-or-map-of-struct): _create_converter iterates a None where the inferred type is an
-   array/map whose element type contains a struct. *)
-Definition C19_create_collect_full : Prop := create_collect_full.
-Theorem C19_create_collect_refuted : ~ C19_create_collect_full.
-Proof. exact create_collect_refuted. Qed.
-(* witness: [Row(a=[Row(x=1)]), Row(a=None)] -- the schema is inferred, createDataFrame raises TypeError *)
-Theorem C19_create_collect_witness :
-  create_inferred 0 witness_rows = Err EType /\ infer_schema_from_list witness_rows = Ok (TStruct witness_fs).
-Proof. exact witness_fails. Qed.
-
-(* proved part: extra hypothesis [conv_safe] = no None at an array/map position whose element type needs the
-   converter (contains a struct); everything else (nulls in atoms, in structs, in arrays/maps of atoms, as
-   elements of arrays of structs, ...) is covered *)
-Theorem C19_create_collect_partial : forall local fs rows s,
-  inferable (TStruct fs) -> Forall (is_row_of (TStruct fs)) rows -> Forall (conv_safe (TStruct fs)) rows ->
+   For rows as above whose schema can be inferred, createDataFrame(rows).collect() is the input, where the only
+   change is that a timezone-aware datetime is re-expressed in the local zone (same instant: [tz_local] keeps
+   the UTC microseconds) -- for every placement of nulls (full since the repair of the finding
+   create:null-in-array-or-map-of-struct; [long] values are 64-bit integers, see [atom_value]). *)
+Theorem C19_create_collect_id : forall local fs rows s,
+  inferable (TStruct fs) -> Forall (is_row_of (TStruct fs)) rows ->
   infer_schema_from_list rows = Ok s ->
   create_inferred local rows = Ok (map (tz_local local) rows).
-Proof. exact create_collect_partial. Qed.
+Proof. exact create_collect_id. Qed.
+(* regression: [Row(a=[Row(x=1)]), Row(a=None)], the replay of the repaired finding *)
+Example create_collect_regression :
+  create_inferred 0 witness_rows = Ok witness_rows /\ infer_schema_from_list witness_rows = Ok (TStruct witness_fs).
+Proof. exact witness_now_created. Qed.
 
 (* conversion to the internal representation alone never fails on such values (the repaired null timestamp) *)
 Theorem C19_to_internal : forall local t v, ivalue t v -> to_internal local t v = Ok (tz_local local v).
@@ -161,9 +151,8 @@ Proof. exact to_internal_ivalue. Qed.
 (* non-vacuity: the hypotheses hold for rows with nested Rows, nulls at several positions and an aware datetime *)
 Example sample_hypotheses :
   inferable (TStruct sample_fs) /\ Forall (is_row_of (TStruct sample_fs)) sample_rows /\
-  Forall (conv_safe (TStruct sample_fs)) sample_rows /\
   infer_schema_from_list sample_rows = Ok (TStruct sample_fs).
-Proof. exact (conj sample_inferable (conj sample_rows_ok (conj sample_rows_safe sample_inferred))). Qed.
+Proof. exact (conj sample_inferable (conj sample_rows_ok sample_inferred)). Qed.
 Example sample_created :
   create_inferred 0 sample_rows =
     Ok [PRow [lit "a"; lit "t"] [PList [PRow [lit "x"] [PInt 1]; PNone]; PDatetime 5 (Some 0)];
@@ -237,7 +226,7 @@ Example asdict_doctests :
 Proof. vm_compute. split; reflexivity. Qed.
 
 (* with the same schema given explicitly (verifySchema=True) there is no converter in the path: the rows are
-   verified and come back for EVERY placement of the nulls -- including the witness rows above *)
+   verified and come back for EVERY placement of the nulls *)
 Theorem C19_create_with_schema_id : forall local fs rows,
   inferable (TStruct fs) -> Forall (is_row_of (TStruct fs)) rows ->
   create_with_schema local (TStruct fs) rows = Ok (map (tz_local local) rows).
